@@ -230,6 +230,7 @@ def run_case(case):
                'timer': ('none' if t_after is None else ('fresh' if t_after == sim.now else 'old')),
                'exc': type(exc).__name__ if exc else None}
         res['sample'] = {'case': case, 'expected': exp, 'observed': obs}
+        res['digest'] = rig.sim.digest.hexdigest() + repr(sorted(obs.items()))
         bad = []
         if exp is None:
             # undefined cell: no effect at all (raising is fine)
